@@ -163,14 +163,14 @@ func (p Poly) isConst() (*big.Int, bool) {
 // Rat is an exact rational function N/D.
 type Rat struct{ N, D Poly }
 
-func rPoly(p Poly) Rat     { return Rat{p, pConst(1)} }
-func rConst(n int64) Rat   { return rPoly(pConst(n)) }
-func rSym(s string) Rat    { return rPoly(pSym(s)) }
-func rAdd(a, b Rat) Rat    { return rNorm(Rat{pAdd(pMul(a.N, b.D), pMul(b.N, a.D)), pMul(a.D, b.D)}) }
-func rSub(a, b Rat) Rat    { return rAdd(a, Rat{pNeg(b.N), b.D}) }
-func rMul(a, b Rat) Rat    { return rNorm(Rat{pMul(a.N, b.N), pMul(a.D, b.D)}) }
-func rDiv(a, b Rat) Rat    { return rNorm(Rat{pMul(a.N, b.D), pMul(a.D, b.N)}) }
-func rEq(a, b Rat) bool    { return pEq(pMul(a.N, b.D), pMul(b.N, a.D)) }
+func rPoly(p Poly) Rat   { return Rat{p, pConst(1)} }
+func rConst(n int64) Rat { return rPoly(pConst(n)) }
+func rSym(s string) Rat  { return rPoly(pSym(s)) }
+func rAdd(a, b Rat) Rat  { return rNorm(Rat{pAdd(pMul(a.N, b.D), pMul(b.N, a.D)), pMul(a.D, b.D)}) }
+func rSub(a, b Rat) Rat  { return rAdd(a, Rat{pNeg(b.N), b.D}) }
+func rMul(a, b Rat) Rat  { return rNorm(Rat{pMul(a.N, b.N), pMul(a.D, b.D)}) }
+func rDiv(a, b Rat) Rat  { return rNorm(Rat{pMul(a.N, b.D), pMul(a.D, b.N)}) }
+func rEq(a, b Rat) bool  { return pEq(pMul(a.N, b.D), pMul(b.N, a.D)) }
 func (r Rat) String() string {
 	if c, ok := r.D.isConst(); ok && c.Cmp(big.NewInt(1)) == 0 {
 		return r.N.String()
@@ -317,8 +317,8 @@ type fxNode struct {
 type Fx struct {
 	w       *Walker
 	nodes   []*fxNode
-	decSyms map[string]bool       // symbols that denote decimals (not integers)
-	leaf    map[string]string     // symbol -> loose term
+	decSyms map[string]bool   // symbols that denote decimals (not integers)
+	leaf    map[string]string // symbol -> loose term
 	ids     map[string]string
 	choice  map[*ssa.BasicBlock]int // path assumption: block -> predecessor index
 	phis    map[*ssa.BasicBlock]bool
